@@ -584,6 +584,39 @@ def r01_8(run):
                    message='%s slices data-block lines' % name)
     bc = U(run, '_broadcast_response')
     p = bc.params[1]
+    # the final status line's payload is also a line of the reply: on every path where the line is long
+    # enough to have one, it reaches the per-line callback or the reply text, exactly once
+    gb = cfg_of(bc)
+    seen_payload = 0
+
+    def uses_line(a):
+        return any(isinstance(x, ast.Name) and x.id == p for x in ast.walk(a))
+    for pa in gb.paths():
+        run.paths_enumerated += 1
+        if pa.exit == 'raise':
+            continue
+        short = any(n.kind == 'test' and 'len(%s)' % p in src(n.ast) and
+                    eval_small(n.ast, {'len(%s)' % p: 3}) is not UNKNOWN and bool(eval_small(n.ast, {'len(%s)' % p: 3})) == (lab == 'T')
+                    and bool(eval_small(n.ast, {'len(%s)' % p: 5})) != (lab == 'T')
+                    for n, lab in pa.steps)
+        if short:
+            continue
+        k_cb = k_txt = 0
+        for n, lab in pa.steps:
+            if n.kind != 'stmt':
+                continue
+            for a in node_asts(n):
+                if isinstance(a, ast.Call) and isinstance(a.func, ast.Subscript) and dotted(a.func.value) == 'self.command' and any(uses_line(x) for x in a.args):
+                    k_cb += 1
+            if isinstance(n.ast, (ast.Assign, ast.AugAssign)) and uses_line(n.ast.value) and not any(
+                    isinstance(x, ast.Call) and isinstance(x.func, ast.Subscript) for x in ast.walk(n.ast.value)):
+                k_txt += 1
+        seen_payload += 1
+        run.ob('R01.8', bc, bc.node, 'the status line\'s payload goes to the per-line callback or to the reply text, exactly one of them',
+               k_cb + k_txt == 1, slot='one-of:_broadcast_response',
+               message='_broadcast_response: payload of the final line delivered %d times to the callback and %d times to the reply text on path %s'
+               % (k_cb, k_txt, pa.describe()))
+    run.floor('R01.8', 'paths of _broadcast_response that carry a payload', seen_payload, 2)
     for n in walk_unit(bc):
         if isinstance(n, ast.Subscript) and dotted(n.value) == p and isinstance(n.slice, ast.Slice):
             lo = const(n.slice.lower) if n.slice.lower is not None else None
@@ -644,8 +677,48 @@ def r01_9(run):
                    message='%s hands a line of a %s reply to the per-line callback: a 5xx reply then fails with '
                            'only part of its text' % (u.short, hit[1] if hit else ''),
                    path=('code=%s %s' % (hit[1], hit[2].describe())) if hit else None)
-    run.floor('R01.9', 'calls of self.command[2](...)', sites, 4)
+    run.floor('R01.9', 'calls of self.command[2](...)', sites, 1)
 
+
+
+# -------------------------------------------------------------------- R01.11
+def r01_11(run, rid='R01.11'):
+    """The line accumulator (self.response) and the code of the reply in progress (self.code)
+    belong to the line machine: a write from anywhere else (e.g. when a command is issued)
+    clobbers the lines of a reply or 650 event that is part-way through arriving."""
+    from ..tables import SpaghettiTable
+    ci = proto(run)
+    init = U(run, '__init__')
+    tab = SpaghettiTable(init)
+    owners = set([init])
+    # after the connection is gone no further line arrives: resetting there loses nothing
+    work = [x for x in (run.idx.find_method(ci, 'connectionLost'), run.idx.find_method(ci, 'connectionMade')) if x is not None]
+    for t in tab.trans:
+        for role in ('matcher', 'handler'):
+            d = dotted(t[role]) if t[role] is not None else None
+            if d and d.startswith('self.') and len(d.split('.')) == 2:
+                u = run.idx.find_method(ci, d.split('.')[1])
+                if u is not None:
+                    work.append(u)
+    # single-expression / small helpers called by the machine's functions belong to it too
+    while work:
+        u = work.pop()
+        if u in owners:
+            continue
+        owners.add(u)
+    run.floor(rid, 'functions of the line machine', len(owners), 5)
+    k = 0
+    for u in class_units(run.idx, ci):
+        top = u
+        while top.parent is not None and top.parent.owner_cls is ci and not isinstance(top.node, ast.ClassDef) and top not in owners:
+            top = top.parent
+        for attr in ('self.response', 'self.code'):
+            for st, v in writes_of(u, attr):
+                k += 1
+                run.ob(rid, u, st, '%s is written only by the line machine\'s own functions' % attr, u in owners or top in owners,
+                       slot='foreign-write:%s@%s' % (attr, u.short),
+                       message='%s writes %s outside the line machine: lines of a reply or event that is part-way through arriving are lost' % (u.short, attr))
+    run.floor(rid, 'writes of the accumulator / code', k, 5)
 
 # --------------------------------------------------------------------- R01.6
 FSM_ORACLE = {
@@ -767,6 +840,7 @@ RULES = [
     ('R01.4', 'dominance: pop guarded by empty in-flight slot; slot and Deferred set before write; who-may-assign slot', r01_4),
     ('R01.5', 'path enumeration over status-code ordering classes in _broadcast_response: one fire of the right kind, slot cleared, then next issue', r01_5),
     ('R01.7', 'framing: LineOnlyReceiver base, no dataReceived/delimiter override, MAX_LENGTH >= 2**20, each line processed once', r01_7),
+    ('R01.11', 'who-may-write: self.response / self.code are written only by __init__ and the functions registered in the line machine\'s table', r01_11),
     ('R01.9', 'reachability: per-line callback unreachable under every non-2xx code class', r01_9),
     ('R01.8', 'each reply line goes to exactly one of per-line callback / reply text; prefix slice is 4; data lines unsliced', r01_8),
 ]
@@ -774,6 +848,8 @@ RULES = [
 from ..selftest import M  # noqa: E402
 F = 'txtorcon/torcontrolprotocol.py'
 MUTANTS = [
+    M('final-line-payload-dropped', F, "                self.command[2](line[4:])\n                resp = ''", "                resp = ''", ['R01.8']),
+    M('issue-wipes-accumulator', F, "            self.defer = d\n", "            self.defer = d\n            self.response = ''\n", ['R01.11']),
     M('linecb-for-5xx', F, "        return self.code >= 200 and self.code < 300 and \\\n            self.command", "        return self.code < 600 and \\\n            self.command", ['R01.9']),
     M('write-in-queue_command', F, "        self.commands.append((d, cmd, arg))\n", "        self.commands.append((d, cmd, arg))\n        self.transport.write(cmd)\n", ['R01.1']),
     M('lf-terminator', F, "data = cmd + b'\\r\\n'", "data = cmd + b'\\n'", ['R01.2']),
